@@ -72,8 +72,8 @@ structure HAC (handlers : Nat → Handler) (nextHandler : Nat) (r : RPc) : Prop 
 
 def HAInv (s : St) : Prop := HAC s.handlers s.nextHandler s.r
 
-theorem HAInv_init : HAInv init := by
-  constructor <;> simp [init, HOk]
+theorem HAInv_init (f p : Nat → Nat) : HAInv (initSz f p) := by
+  constructor <;> simp [initSz, HOk]
 
 set_option maxHeartbeats 2000000 in
 theorem HAInv_step (s s' : St) (a : Act) (h : HAInv s) (hs : step s a = some s') : HAInv s' := by
@@ -97,8 +97,8 @@ structure HBC (handlers : Nat → Handler) (hist : List Evt) : Prop where
 
 def HBInv (s : St) : Prop := HBC s.handlers s.hist
 
-theorem HBInv_init : HBInv init := by
-  constructor <;> simp [init]
+theorem HBInv_init (f p : Nat → Nat) : HBInv (initSz f p) := by
+  constructor <;> simp [initSz]
 
 set_option maxHeartbeats 2000000 in
 theorem HBInv_step (s s' : St) (a : Act) (hA : HAInv s) (h : HBInv s) (hs : step s a = some s') : HBInv s' := by
@@ -114,7 +114,7 @@ theorem HBInv_step (s s' : St) (a : Act) (hA : HAInv s) (h : HBInv s) (hs : step
 
 theorem HBInv_reach (s : St) (hr : Reachable s) : HBInv s := by
   have : HAInv s ∧ HBInv s := by
-    refine reachable_induct (P := fun s => HAInv s ∧ HBInv s) ⟨HAInv_init, HBInv_init⟩ ?_ s hr
+    refine reachable_induct (P := fun s => HAInv s ∧ HBInv s) (fun f p => ⟨HAInv_init f p, HBInv_init f p⟩) ?_ s hr
     intro s s' a _ ih hs
     exact ⟨HAInv_step s s' a ih.1 hs, HBInv_step s s' a ih.1 ih.2 hs⟩
   exact this.2
@@ -132,8 +132,8 @@ structure NC (notifiers : Nat → Notifier) : Prop where
 
 def NInv (s : St) : Prop := NC s.notifiers
 
-theorem NInv_init : NInv init := by
-  constructor <;> simp [init]
+theorem NInv_init (f p : Nat → Nat) : NInv (initSz f p) := by
+  constructor <;> simp [initSz]
 
 theorem NInv_step (s s' : St) (a : Act) (h : NInv s) (hs : step s a = some s') : NInv s' := by
   have hall := h
